@@ -82,15 +82,97 @@ def effectiveMax (wf stage : Option Int) : Int :=
     | some m => m
     | none => 10
 
+/-! ### jump budget over the per-stage `_jump_count` context values
+
+  `JumpToStageHandler._handle_with_retry`: the source's `_jump_count` (default 0) is compared with the
+  effective max; an accepted jump writes `count + 1` into the TARGET's context and, unless it is a
+  self loop, into the SOURCE's context.  `reset_stage_for_retry` keeps `_jump_count`, so no other
+  stage's count changes.  A rejected jump leaves all counts alone (the source goes TERMINAL). -/
+
+/-- `_jump_count` per stage index (absent = 0) -/
+abbrev Counts := List Int
+
+def countOf (cs : Counts) (i : Nat) : Int := cs.getD i 0
+
+/-- where `_max_jumps` may be configured: workflow context, per-stage context -/
+structure Budget where
+  wf : Option Int
+  stage : List (Option Int)
+  deriving Repr
+
+def Budget.maxFor (b : Budget) (s : Nat) : Int := effectiveMax b.wf (b.stage.getD s none)
+
+/-- one handled `JumpToStage(source → target)`: new counts and whether it was accepted -/
+def jumpStep (b : Budget) (cs : Counts) (src tgt : Nat) : Counts × Bool :=
+  let c := countOf cs src
+  if jumpAccepted c (b.maxFor src) then ((cs.set src (c + 1)).set tgt (c + 1), true) else (cs, false)
+
+/-- a sequence of jump requests, in handling order: final counts and the accepted flags -/
+def runJumps (b : Budget) : Counts → List (Nat × Nat) → Counts × List Bool
+  | cs, [] => (cs, [])
+  | cs, (s, t) :: js =>
+    let r := jumpStep b cs s t
+    let rest := runJumps b r.1 js
+    (rest.1, r.2 :: rest.2)
+
+/-! ### which stages one accepted jump rewrites (`_handle_with_retry`, status part) -/
+
+structure Effect where
+  backward : Bool
+  /-- stages given `reset_stage_for_retry` (ascending) -/
+  rearm : List Nat
+  /-- stages offered `reset_stage_to_skipped`; the handler applies it to those currently NOT_STARTED -/
+  skip : List Nat
+  /-- forward jump: the source is marked SUCCEEDED -/
+  sourceSucceeded : Bool
+  deriving Repr
+
+def jumpEffect (g : Graph) (src tgt : Nat) : Effect :=
+  let back := isBackward g src tgt
+  let res := (resettable g tgt).filter (fun d => d != src && d != tgt)
+  let rearmSet := tgt :: ((if src != tgt && back then [src] else []) ++ res)
+  { backward := back
+    rearm := (List.range g.length).filter (fun i => rearmSet.contains i)
+    skip := if back then [] else skipped g src tgt
+    sourceSucceeded := src != tgt && !back }
+
 /-! ### driver
   `jump resettable <root> <g>` | `jump downstream <root> <g>` | `jump skipped <src> <tgt> <g>` |
-  `jump backward <src> <tgt> <g>`     with `<g>` = `pre;pre;...`, each `pre` = `-` or `1,2`. -/
+  `jump backward <src> <tgt> <g>`     with `<g>` = `pre;pre;...`, each `pre` = `-` or `1,2`.
+  `jump effect <src> <tgt> <g>`  →  `B|F rearm=.. skip=.. src=S|-`
+  `jump budget <wfmax|none> <stagemax,.. (none|int)> <counts,..> <s:t;s:t;..|->`  →  `AR..|c0,c1,..` -/
 
 def parseGraph (s : String) : Option Graph :=
   Parse.all? Parse.natList? (s.splitOn ";")
 
+def optInt? (s : String) : Option (Option Int) :=
+  if s == "none" then some none else (Parse.int? s).map some
+
+def parsePair (s : String) : Option (Nat × Nat) :=
+  match s.splitOn ":" with
+  | [a, b] => do pure ((← Parse.nat? a), (← Parse.nat? b))
+  | _ => none
+
+def showInts (xs : List Int) : String :=
+  if xs.isEmpty then "-" else Parse.joinWith "," (xs.map toString)
+
+def driveBudget (wf st cs js : String) : String :=
+  match optInt? wf, Parse.all? optInt? (st.splitOn ","), Parse.all? Parse.int? (cs.splitOn ","),
+        (if js == "-" then some [] else Parse.all? parsePair (js.splitOn ";")) with
+  | some wf, some st, some cs, some js =>
+    let r := runJumps { wf := wf, stage := st } cs js
+    String.join (r.2.map (fun ok => if ok then "A" else "R")) ++ "|" ++ showInts r.1
+  | _, _, _, _ => "bad-request"
+
 def drive (rest : String) : String :=
   match rest.splitOn " " with
+  | ["budget", wf, st, cs, js] => driveBudget wf st cs js
+  | ["effect", s, t, g] =>
+    match Parse.nat? s, Parse.nat? t, parseGraph g with
+    | some s, some t, some g =>
+      let e := jumpEffect g s t
+      s!"{if e.backward then "B" else "F"} rearm={Parse.showNats e.rearm} skip={Parse.showNats e.skip} src={if e.sourceSucceeded then "S" else "-"}"
+    | _, _, _ => "bad-request"
   | ["resettable", r, g] =>
     match Parse.nat? r, parseGraph g with
     | some r, some g => Parse.showNats (resettable g r)
